@@ -41,6 +41,7 @@ class _View:
         self.par = {n["id"]: n["parent"] for n in decl["nodes"]}
         self.kind = {n["id"]: n["kind"] for n in decl["nodes"]}
         self.exp = set(expanded)
+        self.order = {n["id"]: i for i, n in enumerate(decl["nodes"])}
         self.ins = {n["id"]: set(n["ins"]) for n in decl["nodes"]}
         self.outs = {n["id"]: set(n["outs"]) for n in decl["nodes"]}
 
@@ -98,6 +99,9 @@ def classify_missing(decl, view, missing_idx):
             same_via = [j for j in grp if deps[j]["via"] == eff["via"]]
             reaches_rc = any(drawn(j) and view.rep(deps[j]["c"]) == rc for j in same_via)
             other_rc = any(drawn(j) and view.rep(deps[j]["c"]) != rc for j in same_via)
+            # the renderer lists consumers in declaration order: the FIRST one is the one it draws to
+            first_rc = min((view.rep(deps[j]["c"]) for j in same_via), key=view.order.__getitem__)
+            first_drawn = other_rc and any(drawn(j) and view.rep(deps[j]["c"]) == first_rc for j in same_via)
             to_c = [j for j in grp if view.rep(deps[j]["c"]) == rc]
             leaves_rp = any(drawn(j) and view.rep(deps[j]["p"]) == rp for j in to_c)
             other_rp = any(drawn(j) and view.rep(deps[j]["p"]) != rp for j in to_c)
@@ -119,7 +123,7 @@ def classify_missing(decl, view, missing_idx):
                 klass = K_SCOPE
             elif hidden_in_open(eff):
                 klass = K_HIDDEN_PRODUCER
-            elif via_open and not reaches_rc and other_rc and len({view.rep(deps[j]["c"]) for j in same_via}) >= 2:
+            elif via_open and not reaches_rc and first_drawn and rc != first_rc:
                 klass = K_FIRST_CONSUMER
             elif not leaves_rp and (other_rp or chosen_hidden) and len({deps[j]["p"] for j in to_c}) >= 2:
                 klass = K_MUTEX
